@@ -378,6 +378,79 @@ def wrap_walk(args):
         loop.dispose()
 
 
+def event_id_walk(args):
+    """every event id 0..0xFFFF once (ids are 16 bit; one with bit 15 set is the full notification id as interface
+    descriptions write it): an explicit round of the events (1, id) arrives as one datagram with the method ids
+    0x8001 and 0x8000 OR id, session ids going on; for ids around the bit-15 boundary also the initial notification of
+    a fresh subscriber"""
+    sid, major, lo, hi = args
+    from ..vloop import VLoop
+    loop = VLoop().install()
+    viols = []
+    n = 0
+    try:
+        class S(svc.SimpleService):
+            service_id = sid
+            version_major = major
+            version_minor = 0
+
+        service = S(instance_id=1)
+        service.transport = FakeTransport(loop, sockname=("192.0.2.1", 30501))
+        eg = svc.SimpleEventgroup(service, id=5)
+        service.register_eventgroup(eg)
+        sub = lambda e: sd.EventgroupSubscription(service_id=sid, instance_id=1, major_version=major, id=5, counter=0,  # noqa: E731
+                                                  ttl=3, endpoints=frozenset([EP[e]]))
+        service.client_subscribed(sub("e1"), SRC)
+        loop.settle()
+        sent = service.transport.sent
+        sent.clear()
+        want = {"e1": 1, "e2": 1}
+
+        def take(label, evs, dests):
+            nonlocal n
+            n += 1
+            got = []
+            for t, it, data, addr in sent:
+                msgs, err, _ = refcodec.dec_someip_all(data)
+                got.append((ADDRNAME.get(addr, str(addr)), err, tuple((x["method"], x["session"], x["payload"]) for x in msgs)))
+            sent.clear()
+            exp = []
+            for d in dests:
+                items = []
+                for evn in evs:
+                    items.append((0x8000 | evn, want[d], bytes([evn & 0xFF])))
+                    want[d] = want[d] % 0xFFFF + 1
+                exp.append((d, None, tuple(items)))
+            if sorted(got, key=repr) != sorted(exp, key=repr):
+                viols.append(("header", "event-id-walk", f"{label}: datagrams (destination, error, (method id, session id, payload)) "
+                              f"{got!r:.300}, expected {exp!r:.300}", evs[-1]))
+                for d, err, items in got:
+                    if items and d in want:
+                        want[d] = items[-1][1] % 0xFFFF + 1
+                return False
+            return True
+
+        for evn in range(lo, hi):
+            eg.values.clear()
+            evs = (1, evn) if evn != 1 else (1,)
+            for e in evs:
+                eg.values[e] = bytes([e & 0xFF])
+            eg.notify_once(list(evs))
+            loop.settle()
+            ok = take(f"explicit round of the events {evs}", evs, ("e1",))
+            if evn in (0, 1, 2, 0x7FFE, 0x7FFF, 0x8000, 0x8001, 0x8002, 0xFFFE, 0xFFFF) or evn % 4099 == 0:
+                service.client_subscribed(sub("e2"), SRC)
+                loop.settle()
+                ok = take(f"initial notification of a group with the events {evs}", evs, ("e2",)) and ok
+                service.client_unsubscribed(sub("e2"), SRC)
+                loop.settle()
+            if len(viols) > 5:
+                break
+        return n, viols
+    finally:
+        loop.dispose()
+
+
 def slow_lookup_walk(args):
     """the address lookups of a cyclic round stay pending for k/2 intervals (k = 1..7), then complete: the round is
     delivered to both subscribers and the cycle goes on, one round per interval"""
@@ -437,6 +510,12 @@ def check(ctx):
     for clause, disc, detail, h in sv:
         viols.append(core.Violation(ctx.prop, clause, disc, dict(slow_lookup=h, seed=ctx.seed), detail=detail))
     nwalk, wv = core.pmap(wrap_walk, [(sid_for(ctx.seed), 1 + ctx.seed % 100, 32800 + ctx.seed % 7)], 1)[0]
+    chunks = [(sid_for(ctx.seed), 1 + ctx.seed % 100, lo, lo + 0x1000) for lo in range(0, 0x10000, 0x1000)]
+    nids = 0
+    for (_, _, lo, _), (k, ev) in zip(chunks, core.pmap(event_id_walk, chunks, 1)):
+        nids += k
+        for clause, disc, detail, evn in ev:
+            viols.append(core.Violation(ctx.prop, clause, disc, dict(event_id_walk=[lo, lo + 0x1000], event=evn, seed=ctx.seed), detail=detail))
     core.close_pool()
     for clause, disc, detail, rnd in wv:
         viols.append(core.Violation(ctx.prop, clause, disc, dict(walk=True, round=rnd, seed=ctx.seed), detail=detail))
@@ -452,6 +531,7 @@ def check(ctx):
     cov["exhaustive"] = not cov["caps_hit"]
     cov["depth_completed"] = {d["search"]: d["depth_completed"] for d in details}
     cov["wrap_walk_rounds"] = nwalk
+    cov["event_id_walk_rounds"] = nids
     return core.finish(ctx, "model_checking", cov, viols, [
         "two overlapping subscriptions naming the same endpoint are outside the quantifier and not generated",
         "per-destination session counters are left out of the state key (they only ever increase below the wrap in the "
@@ -468,6 +548,13 @@ def replay(ctx, body):
         for v in sv:
             print("FAILS:", v[:3])
         return 1 if sv else 0
+    if body["case"].get("event_id_walk"):
+        seed = body["case"].get("seed", ctx.seed)
+        lo, hi = body["case"]["event_id_walk"]
+        n, wv = event_id_walk((sid_for(seed), 1 + seed % 100, lo, hi))
+        for v in wv:
+            print("FAILS:", v[:3])
+        return 1 if wv else 0
     if body["case"].get("walk"):
         seed = body["case"].get("seed", ctx.seed)
         n, wv = wrap_walk((sid_for(seed), 1 + seed % 100, 32800 + seed % 7))
